@@ -290,6 +290,108 @@ def check_make_valid_contract(prog, rep):
                               key_text(st), st.lineno)
 
 
+BORROW_ATTRS = ('_B', '_W', '_S')
+BORROW_GETTERS = ('get_B', 'get_W', 'get_theta_borrowed')
+# accepted in-place calls on stored tensors: (function, text) -> reason
+BORROW_OK = {
+    'itranspose': 'stored tensors are kept in the label order self._B_labels: identity '
+                  'permutation (MPS.test_sanity checks it)',
+    'test_sanity': 'no write',
+}
+
+
+def check_borrowed(prog, rep):
+    """tensors stored inside an MPS/MPO (self._B[i], get_B(..) without copy) must not be the
+    receiver of an in-place operation / passed with inplace=True before being copied"""
+    from ..cfg import CFG
+    inplace = inplace_names(prog)
+    for rel in (MPS, MPO):
+        m = prog.module(rel)
+        rep.unit(m)
+        for q, f in m.functions.items():
+            if q.count('.') != 1:
+                continue
+            borrowed = {}
+            for st in stmts_of(f):
+                if isinstance(st, ast.Assign) and len(st.targets) == 1 and isinstance(
+                        st.targets[0], ast.Name):
+                    v = st.value
+                    src = None
+                    if isinstance(v, ast.Subscript) and is_self_attr(v.value) and \
+                            v.value.attr in BORROW_ATTRS:
+                        src = unparse(v)
+                    if isinstance(v, ast.Call) and is_self_attr(v.func) and \
+                            v.func.attr in ('get_B', 'get_W'):
+                        cp = kwarg(v, 'copy')
+                        if cp is None and v.func.attr == 'get_B' and len(v.args) > 2:
+                            cp = v.args[2]
+                        if cp is None or (isinstance(cp, ast.Constant) and cp.value is False):
+                            # a form conversion creates a new tensor: only form=None borrows
+                            fm = kwarg(v, 'form')
+                            if fm is None and len(v.args) > 1:
+                                fm = v.args[1]
+                            if v.func.attr == 'get_W' or (
+                                    fm is not None and isinstance(fm, ast.Constant) and
+                                    fm.value is None):
+                                src = unparse(v)
+                    if src:
+                        borrowed[st.targets[0].id] = (st, src)
+            if not borrowed:
+                continue
+            cfg = None
+            for c in body_nodes(f):
+                if not isinstance(c, ast.Call):
+                    continue
+                hit = None
+                how = None
+                if isinstance(c.func, ast.Attribute) and isinstance(c.func.value, ast.Name) and \
+                        c.func.value.id in borrowed and c.func.attr in inplace and \
+                        c.func.attr not in BORROW_OK and c.func.attr not in BENIGN_INPLACE:
+                    hit, how = c.func.value.id, 'in-place method `%s`' % c.func.attr
+                ip = kwarg(c, 'inplace')
+                if ip is not None and not (isinstance(ip, ast.Constant) and ip.value is False):
+                    for a in c.args:
+                        if isinstance(a, ast.Name) and a.id in borrowed:
+                            hit, how = a.id, '`%s` with inplace=%s' % (call_name(c), unparse(ip))
+                if hit is None:
+                    continue
+                st0, src = borrowed[hit]
+                stc = c
+                while not isinstance(stc, ast.stmt):
+                    stc = parent(stc)
+                if stc.lineno <= st0.lineno:
+                    continue
+                rep.instance('OWN-borrowed', {'function': q, 'tensor': hit, 'from': src,
+                                              'op': unparse(c)[:60]})
+                if cfg is None:
+                    cfg = CFG(f)
+                # a copy re-binding between borrow and use (unconditional, or under the very
+                # flag that switches the in-place behaviour on)
+                guardvar = unparse(ip) if ip is not None and isinstance(ip, ast.Name) else None
+
+                def is_copy(n, hit=hit, guardvar=guardvar):
+                    s = n.stmt
+                    if isinstance(s, ast.Assign) and unparse(s.targets[0]) == hit and \
+                            isinstance(s.value, ast.Call) and s.lineno > st0.lineno:
+                        cn = call_name(s.value)
+                        recv_inplace = cn in inplace  # X = X.itranspose(..) keeps the object
+                        reborrow = cn in ('get_B', 'get_W') or cn == 'shift_Array_unit_cells'
+                        if not recv_inplace and not reborrow:
+                            return True  # re-bound to the result of a non-in-place operation
+                    if guardvar and isinstance(s, ast.If) and unparse(s.test) == guardvar and \
+                            s.lineno > st0.lineno:
+                        return any(isinstance(b, ast.Assign) and unparse(b.targets[0]) == hit and
+                                   isinstance(b.value, ast.Call) and call_name(b.value) == 'copy'
+                                   for b in s.body)
+                    return False
+                if not cfg.dominators_like_before(stc, is_copy):
+                    rep.violation('OWN-borrowed', m, q, 'borrowed-inplace:%s:%s' % (hit, how[:30]),
+                                  '`%s` is the tensor stored in the network (`%s`); %s modifies it '
+                                  'in place before any copy is made: the state/operator changes '
+                                  'behind the back of every other reference' %
+                                  (hit, src, how), c.lineno)
+
+
 def check_network_copies(prog, rep):
     """MPS/MPO constructors and copy() store copies of the tensors"""
     for rel, qual, attr in ((MPS, 'MPS.__init__', '_B'), (MPS, 'MPS.copy', '_B'),
@@ -384,6 +486,7 @@ def run(prog, rep, tier):
     check_leg_immutability(prog, rep)
     check_inplace_flag(prog, rep)
     check_network_copies(prog, rep)
+    check_borrowed(prog, rep)
     rep.floor('OWN-write', 150)
     rep.assumptions += ['origin U (unknown) is never flagged: the analysis may miss, not invent',
                         'numpy view/copy table in sa/own.py',
